@@ -97,13 +97,14 @@ Keyword(k, p) ==
           /\ pend' = [k |-> k, x |-> FALSE, p |-> p, id |-> NextId]
           /\ st' = "run"
 
-\* processContextBegin: dereferences the pending directive without a nil check
+\* "(" with no directive being read is rejected at that parenthesis (until the fix for F-01 the
+\* code dereferenced the nil pending directive here: state crash_nil, found by random walks)
 Open ==
   /\ st = "run"
   /\ pend.k \notin NoParenKinds       \* the scanner cannot emit "(" after Description
   /\ Log(OpenSym)
   /\ IF pend = NoDir
-     THEN st' = "crash_nil" /\ UNCHANGED <<chain, pend>>
+     THEN st' = "err_open" /\ UNCHANGED <<chain, pend>>
      ELSE pend' = [pend EXCEPT !.x = TRUE] /\ UNCHANGED <<chain, st>>
 
 Close ==
@@ -136,7 +137,7 @@ Spec == Init /\ [][Next]_vars
 (* Design-level properties (checked on the closed graph)                   *)
 
 TypeOK ==
-  /\ st \in {"run", "rej_ctx", "err_close", "err_eof", "done", "crash_nil"}
+  /\ st \in {"run", "rej_ctx", "err_close", "err_eof", "err_open", "done"}
   /\ \A i \in 1..Len(chain) : chain[i].k \in TreeKinds
 
 \* C06: the code's walk places every directive exactly where the declarative rule says
@@ -154,7 +155,6 @@ ChainWF == \A i \in 2..Len(chain) : Admits(chain[i-1].k, chain[i].k)
 RootWF  == Len(chain) > 0 => chain[1].k \in RootKinds
 DepthBound == Len(chain) <= 6
 
-\* F-01 as a reachable design-level state: "(" with nothing pending
 NoCrash == st # "crash_nil"
 
 -----------------------------------------------------------------------------
@@ -180,7 +180,7 @@ Run(mode, d, i, ch, pd, par, devs) ==
               IF fl = RejectCh THEN R("rej_ctx", pd.id, par)
               ELSE Run(mode, d, i + 1, fl, [k |-> d[i].k, x |-> FALSE, p |-> d[i].p, id |-> i], par2, devs2)
          [] d[i].t = "open" ->
-              IF pd = NoDir THEN R("open_without_directive", i, par)
+              IF pd = NoDir THEN R("err_open", i, par)
               ELSE Run(mode, d, i + 1, ch, [pd EXCEPT !.x = TRUE], par, devs2)
          [] d[i].t = "close" ->
               IF fl = RejectCh THEN R("rej_ctx", pd.id, par)
@@ -250,7 +250,7 @@ EmitGraph ==
 
 \* docs mode: emit the history of every terminal behaviour or of every behaviour at the bound
 EmitDocs ==
-  (EmitMode = "docs" /\ History /\ st \in {"done", "err_eof", "rej_ctx", "err_close"}) =>
+  (EmitMode = "docs" /\ History /\ st \in {"done", "err_eof", "rej_ctx", "err_close", "err_open"}) =>
      EmitDoc(doc)
 
 Emit == EmitGraph /\ EmitDocs
